@@ -25,6 +25,7 @@ import (
 	"os"
 	"path/filepath"
 	"reflect"
+	"regexp"
 	"strconv"
 	"strings"
 )
@@ -406,6 +407,10 @@ func (c *fileCtx) run() {
 	}
 }
 
+// what the rewriter looks for: sync / sync/atomic imports, go statements, channel types and operations,
+// select statements, runtime.NumCPU
+var mentionsConcurrency = regexp.MustCompile(`"sync"|"sync/atomic"|\bgo\s+[\w(]|\bchan\b|<-|\bselect\s*\{|NumCPU`)
+
 func main() {
 	repo := flag.String("repo", "/repo", "repository root")
 	out := flag.String("out", "", "output directory")
@@ -413,10 +418,26 @@ func main() {
 	ovFile := flag.String("overlay", "", "overlay json to write (default stdout)")
 	flag.Parse()
 	overlay := map[string]string{}
+	// one file set and one source importer for all packages: dependencies are type-checked once
+	fset := token.NewFileSet()
+	imp := importer.ForCompiler(fset, "source", nil)
 	for _, rel := range flag.Args() {
 		dir := filepath.Join(*repo, rel)
-		fset := token.NewFileSet()
 		ents, _ := os.ReadDir(dir)
+		// a package none of whose files mentions anything this tool rewrites is left alone (and not type-checked)
+		relevant := false
+		for _, e := range ents {
+			if !strings.HasSuffix(e.Name(), ".go") || strings.HasSuffix(e.Name(), "_test.go") {
+				continue
+			}
+			if b, err := os.ReadFile(filepath.Join(dir, e.Name())); err == nil && mentionsConcurrency.Match(b) {
+				relevant = true
+				break
+			}
+		}
+		if !relevant {
+			continue
+		}
 		var files []*ast.File
 		var names []string
 		for _, e := range ents {
@@ -435,7 +456,7 @@ func main() {
 			names = append(names, e.Name())
 		}
 		info := &types.Info{Types: map[ast.Expr]types.TypeAndValue{}, Uses: map[*ast.Ident]types.Object{}, Defs: map[*ast.Ident]types.Object{}, Selections: map[*ast.SelectorExpr]*types.Selection{}}
-		conf := types.Config{Importer: importer.ForCompiler(fset, "source", nil), Error: func(err error) { fmt.Fprintln(os.Stderr, "typeerr:", err) }}
+		conf := types.Config{Importer: imp, Error: func(err error) { fmt.Fprintln(os.Stderr, "typeerr:", err) }}
 		if _, err := conf.Check(rel, fset, files, info); err != nil {
 			fmt.Fprintln(os.Stderr, "vinstr: type check of", rel, "failed:", err)
 			os.Exit(3)
